@@ -651,12 +651,16 @@ def evaluate_plot_string(plot_string: str):
 
     if "{" in plot_string or "[" in plot_string:
         # Evaluate the string to set lists and dicts - do at least a little validation
-        assert "__" not in plot_string, "Cannot use double underscores in functions"
-        assert len(plot_string) < 1800  # Function string must be less than 1800 characters
+        # nb. these guards raise explicitly (rather than using `assert`) so that they remain in place under `python -O`
+        if "__" in plot_string:
+            raise AssertionError("Cannot use double underscores in functions")
+        if len(plot_string) >= 1800:
+            raise AssertionError("Function string must be less than 1800 characters")
         fcn_ast = ast.parse(plot_string, mode="eval")
         for node in ast.walk(fcn_ast):
             if not (node is fcn_ast):
-                assert isinstance(node, ast.Dict) or isinstance(node, ast.Str) or isinstance(node, ast.List) or isinstance(node, ast.Load), "Only allowed to initialize lists and dicts of strings here"
+                if not (isinstance(node, ast.Dict) or isinstance(node, ast.Str) or isinstance(node, ast.List) or isinstance(node, ast.Load)):
+                    raise AssertionError("Only allowed to initialize lists and dicts of strings here")
         compiled_code = compile(fcn_ast, filename="<ast>", mode="eval")
         return eval(compiled_code)
     else:
